@@ -227,9 +227,11 @@ def default_guard(repo: Repo, rep):
             continue
         m = c.methods["arguments"]
         cfg = cfg_of(m)
-        # (1) `is_default = True` statements
+        # (1) `<mark> = True` statements, <mark> being whatever local is handed to Argument(..., is_default=<mark>)
+        marks = {k.value.id for x in body_nodes(m.node) if isinstance(x, ast.Call) and norm(x.func).split(".")[-1] == "Argument" for k in x.keywords if k.arg == "is_default" and isinstance(k.value, ast.Name)}
+        marks |= {x.args[1].id for x in body_nodes(m.node) if isinstance(x, ast.Call) and norm(x.func).split(".")[-1] == "Argument" and len(x.args) > 1 and isinstance(x.args[1], ast.Name)}
         for nd in cfg.stmts(ast.Assign):
-            if any(isinstance(t, ast.Name) and t.id == "is_default" for t in nd.ast.targets) and isinstance(nd.ast.value, ast.Constant) and nd.ast.value.value is True:
+            if any(isinstance(t, ast.Name) and t.id in marks for t in nd.ast.targets) and isinstance(nd.ast.value, ast.Constant) and nd.ast.value.value is True:
                 n += 1
                 from ..cfg import dominating_edges
 
